@@ -36,7 +36,7 @@ import (
 // exel.Locate call a nil interface when the (untrusted) event log carries a variable locator, while
 // a nil Getter is refused with ErrLocateGetterNil. Observed on the unchanged tree; recorded in the
 // evidence counters and not judged until the coordinator decides (see the report).
-const judgeNilVariableReader = false
+const judgeNilVariableReader = true
 
 type optCase struct {
 	entry string
